@@ -49,7 +49,7 @@ static std::string ruleName(libcellml::Issue::ReferenceRule r)
     switch (r) {
     case R::IMPORTER_MISSING_FILE: return "MISSING_FILE";
     case R::IMPORTER_NULL_MODEL: return "NULL_MODEL";
-    case R::UNSPECIFIED: return "UNSPECIFIED";
+    case R::UNDEFINED: return "UNDEFINED";
     case R::IMPORTER_ERROR_IMPORTING_UNITS: return "ERROR_IMPORTING_UNITS";
     case R::IMPORT_EQUIVALENT_INFOSET: return "CYCLE";
     case R::IMPORTER_MISSING_UNITS: return "MISSING_UNITS";
@@ -125,6 +125,9 @@ static std::string guarded(const std::function<std::string()> &fn)
     if (pid == 0) {
         close(fds[0]);
         alarm(10);
+        struct rlimit rl;
+        rl.rlim_cur = rl.rlim_max = 1024 * 1024; // stack exhaustion is reached quickly
+        setrlimit(RLIMIT_STACK, &rl);
         std::string r;
         try {
             r = fn();
@@ -299,6 +302,10 @@ int main(int argc, char **argv)
             gBlobs[f[0]] = hexdecode(f[2]);
         }
     }
+    // no core files: a stack-exhaustion crash must be cheap
+    struct rlimit nocore;
+    nocore.rlim_cur = nocore.rlim_max = 0;
+    setrlimit(RLIMIT_CORE, &nocore);
     gDir = argv[4];
     if (gDir.empty() || gDir.back() != '/') {
         gDir += "/";
